@@ -604,7 +604,7 @@ func ruleHeapDirection(c *Ctx, r *R) {
 	if p := c.fn("internal/heap.parent"); p != nil {
 		ok := false
 		instrs(p, func(b *ssa.BasicBlock, i int, in ssa.Instruction) {
-			if ret, isR := in.(*ssa.Return); isR && path(ret.Results[0]) == "((i-1)/2)" {
+			if ret, isR := in.(*ssa.Return); isR && path(returnedValue(ret, 0)) == "((i-1)/2)" {
 				ok = true
 			}
 		})
@@ -614,7 +614,7 @@ func ruleHeapDirection(c *Ctx, r *R) {
 		ok := false
 		instrs(ch, func(b *ssa.BasicBlock, i int, in ssa.Instruction) {
 			if ret, isR := in.(*ssa.Return); isR && len(ret.Results) == 2 {
-				l, rr := path(ret.Results[0]), path(ret.Results[1])
+				l, rr := path(returnedValue(ret, 0)), path(returnedValue(ret, 1))
 				if (l == "((i*2)+1)" || l == "((2*i)+1)") && (rr == "((i*2)+2)" || rr == "((2*i)+2)") {
 					ok = true
 				}
@@ -669,7 +669,7 @@ func rulePQMap(c *Ctx, r *R) {
 		r.ok(good, "xheap.PriorityQueue.Pop|deletes-popped-key", fn.Pos(), "Pop must delete exactly the popped item's key from the map")
 		retK := false
 		instrs(fn, func(b *ssa.BasicBlock, i int, in ssa.Instruction) {
-			if ret, ok := in.(*ssa.Return); ok && len(pops) == 1 && fieldOfCallResult(ret.Results[0], pops[0], "K") {
+			if ret, ok := in.(*ssa.Return); ok && len(pops) == 1 && fieldOfCallResult(returnedValue(ret, 0), pops[0], "K") {
 				retK = true
 			}
 		})
@@ -758,7 +758,7 @@ func rulePQMap(c *Ctx, r *R) {
 			if ret, ok := in.(*ssa.Return); ok {
 				// the priority returned is Item(idx).P, read where the key is known to be present (the read may feed a
 				// single-exit result variable)
-				for _, lf := range valueLeaves(ret.Results[0], nil, 0) {
+				for _, lf := range valueLeaves(returnedValue(ret, 0), nil, 0) {
 					if !(strings.Contains(path(lf.v), "Item") && strings.HasSuffix(path(lf.v), ".P")) {
 						continue
 					}
@@ -970,7 +970,7 @@ func rulePQInitial(c *Ctx, r *R) {
 		ok := false
 		instrs(f, func(b *ssa.BasicBlock, i int, in ssa.Instruction) {
 			if ret, isR := in.(*ssa.Return); isR {
-				if bin, isB := ret.Results[0].(*ssa.BinOp); isB && bin.Op == token.LSS && isConstInt(bin.Y, 0) {
+				if bin, isB := returnedValue(ret, 0).(*ssa.BinOp); isB && bin.Op == token.LSS && isConstInt(bin.Y, 0) {
 					if call, isC := bin.X.(*ssa.Call); isC && len(call.Call.Args) == 2 && call.Call.Args[0] == ssa.Value(f.Params[0]) && call.Call.Args[1] == ssa.Value(f.Params[1]) {
 						ok = true
 					}
